@@ -82,8 +82,15 @@ pub const KINDS: [&str; 5] = ["close", "halfclose", "reset", "corrupt", "silence
 pub fn run_fault(srv: &Server, fs: &FStream, bytes: &[u8], cut: usize, kind: &str, rng: &mut SmallRng, out: &mut dyn Write) {
     tcp::reset_store(srv);
     tcp::HOOK_LOG.lock().unwrap().clear();
-    let mut o = Client::connect(srv.port).expect("observer");
-    let mut f = Client::connect(srv.port).expect("faulty");
+    // a server that no longer accepts is data, not a harness failure
+    let (mut o, mut f) = match (Client::connect(srv.port), Client::connect(srv.port)) {
+        (Ok(o), Ok(f)) => (o, f),
+        _ => {
+            writeln!(out, "{}", json!({"e": "fault", "kind": kind, "cut": cut, "obs": [], "a1": "dead", "c1": "dead", "a": "dead", "c": "dead",
+                "alive": false, "fresh": false, "fhow": "noconnect", "fopq": [], "fst": []})).unwrap();
+            return;
+        }
+    };
     let mut obs: Vec<Value> = Vec::new();
     let mut oq = 5000u32;
     // deliver the prefix in 1..3 chunks, the observer looks in between
@@ -119,8 +126,15 @@ pub fn run_fault(srv: &Server, fs: &FStream, bytes: &[u8], cut: usize, kind: &st
             let sock = socket2::SockRef::from(&f.s);
             let _ = sock.set_linger(Some(Duration::from_secs(0)));
             drop(f);
-            f = Client::connect(srv.port).expect("reconnect"); // placeholder so that `f` stays valid
-            let _ = f.s.shutdown(Shutdown::Both);
+            // (placeholder so that `f` stays valid; if the server is gone the final observation will say so)
+            if let Ok(n) = Client::connect(srv.port) {
+                f = n;
+                let _ = f.s.shutdown(Shutdown::Both);
+            } else {
+                writeln!(out, "{}", json!({"e": "fault", "kind": kind, "cut": cut, "obs": obs, "a1": "dead", "c1": "dead", "a": "dead", "c": "dead",
+                    "alive": false, "fresh": false, "fhow": "noconnect", "fopq": [], "fst": []})).unwrap();
+                return;
+            }
         }
         "corrupt" => {
             // garbage instead of the rest of the stream: an invalid header
